@@ -6,6 +6,17 @@ Operators of the five classes (`AngleObj.add`, `sub`, `radd`, `rsub`, `mul`, `rm
 `neg`, `abs`, `eq`, `ne`, `lt`, `gt`, `round`, `mod`), Python's dispatch (`binop`, `cmpop`) and the
 expression evaluator `eval`, all read in exact arithmetic. "Denotes" is as in C08: an object is well
 formed (`WF`) and `.dec()` returns the angle.
+
+1. `add_dec`, `sub_dec`, `radd_dec`, `rsub_dec`, `mul_dec`, `rmul_dec`, `truediv_dec` (**op_dec**):
+   result = decimal-degree result up to `clsTol` (0 for DEC/GON/DMS/DDM, `hpTol` for HP), class of
+   the left operand, well formed
+2. `neg_dec`, `abs_dec`, `neg_involutive` (**neg_abs**): exact for all classes
+3. `cmp_dec`, `evalCmp_sound`
+4. `round_half_unit`
+5. `mod_dec`, `pymod_range`
+6. `eval_sound_gen`, `eval_sound`, `eval_sound_lt512`, `errB_le_nodes` — induction over expression
+   trees; the bound `errB` adds one HP rounding per HP-class operator node and scales what lies
+   below a multiplication (the flat `(#nodes)·ε` form holds when no scaling amplifies)
 -/
 namespace GeodeVerif.C12
 open Ang Py GeodeVerif.C08
@@ -169,5 +180,592 @@ theorem cmp_dec (a b : AngleObj ℚ) (x y : ℚ) (ha : a.dec = .ok x) (hb : b.de
   refine ⟨rfl, ?_, rfl, rfl⟩
   show Except.ok (!decide (x = y)) = _
   simp
+
+/-! ### 4. rounding changes an object by at most half a unit of the rounded place -/
+
+/-- Python `round(x, n)` in exact arithmetic (`n = None`: to an integer) -/
+def rnd (n : Option ℕ) (x : ℚ) : ℚ :=
+  match n with
+  | none => (rhe x : ℚ)
+  | some k => (rhe (x * 10 ^ k) : ℚ) / 10 ^ k
+
+theorem q_ofInt (i : ℤ) : (ofInt i : ℚ) = (i : ℚ) := by
+  unfold ofInt
+  simp only [q_ofNat]
+  split
+  · rename_i h
+    have : ((i.natAbs : ℕ) : ℚ) = -(i : ℚ) := by
+      rw [Nat.cast_natAbs, abs_of_neg h]; push_cast; ring
+    rw [this, neg_neg]
+  · rename_i h
+    rw [Nat.cast_natAbs, abs_of_nonneg (not_lt.mp h)]
+
+theorem roundNum_toF (n : Option ℕ) (x : ℚ) : (AngleObj.roundNum n x).toF = rnd n x := by
+  cases n with
+  | none => simp only [AngleObj.roundNum, PyNum.toF, q_ofInt, q_roundInt, rnd]
+  | some k => simp only [AngleObj.roundNum, PyNum.toF, q_roundDec, rnd]
+
+theorem rnd_close (n : Option ℕ) (x : ℚ) : |rnd n x - x| ≤ 1 / 2 / 10 ^ (n.getD 0) := by
+  cases n with
+  | none => simpa [rnd] using rhe_close x
+  | some k =>
+    simp only [rnd, Option.getD_some]
+    have h := rhe_close (x * 10 ^ k)
+    have hp : (0 : ℚ) < 10 ^ k := by positivity
+    have e : (rhe (x * 10 ^ k) : ℚ) / 10 ^ k - x = ((rhe (x * 10 ^ k) : ℚ) - x * 10 ^ k) / 10 ^ k := by
+      field_simp
+    rw [e, abs_div, abs_of_pos hp]
+    exact div_le_div_of_nonneg_right h (le_of_lt hp)
+
+theorem rnd_nonneg (n : Option ℕ) {x : ℚ} (h : 0 ≤ x) : 0 ≤ rnd n x := by
+  cases n with
+  | none => simp only [rnd]; exact_mod_cast rhe_nonneg h
+  | some k =>
+    simp only [rnd]
+    have : 0 ≤ rhe (x * 10 ^ k) := rhe_nonneg (by positivity)
+    have : (0 : ℚ) ≤ (rhe (x * 10 ^ k) : ℚ) := by exact_mod_cast this
+    positivity
+
+/-- a rounded non-negative field as a constructor argument -/
+theorem roundNum_arg (n : Option ℕ) {x : ℚ} (h : 0 ≤ x) :
+    (AngleObj.roundNum n x).lt0 = false ∧ (AngleObj.roundNum n x).absF = rnd n x ∧
+    (AngleObj.roundNum n x).neg.absF = rnd n x ∧
+    (AngleObj.roundNum n x).neg.lt0 = decide (0 < rnd n x) := by
+  have hr := rnd_nonneg n h
+  cases n with
+  | none =>
+    have h0 : 0 ≤ rhe x := rhe_nonneg h
+    simp only [AngleObj.roundNum, PyNum.lt0, PyNum.absF, PyNum.neg, q_roundInt, q_ofNat, rnd,
+      Int.natAbs_neg]
+    have e : ((rhe x).natAbs : ℚ) = (rhe x : ℚ) := by
+      rw [Nat.cast_natAbs, abs_of_nonneg h0]
+    refine ⟨by simp; omega, e, e, ?_⟩
+    by_cases hz : 0 < rhe x
+    · have : (0 : ℚ) < (rhe x : ℚ) := by exact_mod_cast hz
+      simp [this]; omega
+    · have : ¬ (0 : ℚ) < (rhe x : ℚ) := by intro h'; apply hz; exact_mod_cast h'
+      simp [this]; omega
+  | some k =>
+    simp only [AngleObj.roundNum, PyNum.lt0, PyNum.absF, PyNum.neg, q_roundDec, q_ofNat, q_ltb, q_absv,
+      Nat.cast_zero, rnd] at hr ⊢
+    refine ⟨by simp [not_lt.mpr hr], abs_of_nonneg hr, by rw [abs_neg, abs_of_nonneg hr], ?_⟩
+    congr 1
+    exact propext neg_lt_zero
+
+theorem lt0_natInt (m : ℕ) : (PyNum.int (m : ℤ) : PyNum ℚ).lt0 = false := by simp [PyNum.lt0]
+
+theorem mkDMS_posN (d m : ℕ) (s : PyNum ℚ) (hs : s.lt0 = false) :
+    mkDMS (.int (d : ℤ)) (.int (m : ℤ)) s none = ⟨true, d, m, s.absF⟩ := by
+  simp [mkDMS, PyNum.strNeg, PyNum.isZero, lt0_natInt, PyNum.toInt, hs]
+
+theorem mkDDM_posN (d : ℕ) (m : PyNum ℚ) (hm : m.lt0 = false) :
+    mkDDM (.int (d : ℤ)) m none = ⟨true, d, m.absF⟩ := by
+  simp [mkDDM, PyNum.strNeg, PyNum.isZero, PyNum.toInt, hm]
+
+theorem mkDDM_negN (d : ℕ) (m : PyNum ℚ) (v : ℚ) (habs : m.absF = v) (hlt : m.lt0 = decide (0 < v))
+    (hv : 0 ≤ v) :
+    mkDDM (.int (-(d : ℤ))) m none = ⟨decide (d = 0 ∧ v = 0), d, v⟩ := by
+  simp only [mkDDM, PyNum.strNeg, PyNum.isZero, PyNum.toInt, habs, hlt, Int.natAbs_neg, Int.natAbs_natCast]
+  congr 1
+  by_cases hd : d = 0
+  · by_cases hv0 : v = 0
+    · subst hd hv0; simp
+    · have : 0 < v := lt_of_le_of_ne hv (Ne.symm hv0)
+      subst hd; simp [hv0, this]
+  · have : 0 < d := Nat.pos_of_ne_zero hd
+    simp [hd, this]
+
+/-- the unit of the rounded place, in degrees: 1° (DEC), 1 gon = 0.9° (GON), 1″ (DMS), 1′ (DDM) -/
+def roundUnit : Cls → ℚ
+  | .DEC => 1 | .GON => 9 / 10 | .DMS => 1 / 3600 | .DDM => 1 / 60 | .HP => 0
+
+/-- **round_half_unit**: `round(a, n)` (DEC, GON, DMS, DDM; `n = None` or `n ≥ 0`) keeps the class
+and changes the angle by at most half a unit of the rounded place. The rounded DMS/DDM object may
+hold seconds/minutes equal to 60 (59.9996″ → 60.0″); it still denotes the right angle. -/
+theorem round_half_unit (a : AngleObj ℚ) (n : Option ℕ) (x : ℚ) (hw : WF a) (ha : a.dec = .ok x)
+    (hc : a.cls ≠ .HP) :
+    ∃ r z, a.round n = .ok r ∧ r.cls = a.cls ∧ WF r ∧ r.dec = .ok z ∧
+      |z - x| ≤ 1 / 2 / 10 ^ (n.getD 0) * roundUnit a.cls := by
+  cases a with
+  | hpA v => exact absurd rfl hc
+  | decA v =>
+    have e : v = x := ok_inj ha
+    subst e
+    refine ⟨.decA (rnd n v), rnd n v, ?_, rfl, trivial, rfl, ?_⟩
+    · show Except.ok (AngleObj.decA (AngleObj.roundNum n v).toF) = _
+      rw [roundNum_toF]
+    · simpa [roundUnit, AngleObj.cls] using rnd_close n v
+  | gonA v =>
+    have e : gon2dec v = x := ok_inj ha
+    refine ⟨.gonA (rnd n v), gon2dec (rnd n v), ?_, rfl, trivial, rfl, ?_⟩
+    · show Except.ok (AngleObj.gonA (AngleObj.roundNum n v).toF) = _
+      rw [roundNum_toF]
+    · rw [← e]
+      simp only [gon2dec, q_natDiv, roundUnit, AngleObj.cls]
+      have h := rnd_close n v
+      have e2 : ((9 : ℕ) : ℚ) / ((10 : ℕ) : ℚ) * rnd n v - ((9 : ℕ) : ℚ) / ((10 : ℕ) : ℚ) * v
+          = 9 / 10 * (rnd n v - v) := by push_cast; ring
+      rw [e2, abs_mul, abs_of_pos (by norm_num : (0 : ℚ) < 9 / 10)]
+      nlinarith [abs_nonneg (rnd n v - v)]
+  | dmsA s =>
+    have e : s.dec = x := ok_inj ha
+    have hs : 0 ≤ s.second := hw
+    obtain ⟨l1, l2, -, -⟩ := roundNum_arg n hs
+    have hr := rnd_nonneg n hs
+    have hmk := mkDMS_posN s.degree s.minute (AngleObj.roundNum n s.second) l1
+    rw [l2] at hmk
+    have hcl := rnd_close n s.second
+    have key : |dmsMag ⟨true, s.degree, s.minute, rnd n s.second⟩ - dmsMag s|
+        ≤ 1 / 2 / 10 ^ (n.getD 0) * (1 / 3600) := by
+      have e3 : dmsMag ⟨true, s.degree, s.minute, rnd n s.second⟩ - dmsMag s = (rnd n s.second - s.second) / 3600 := by
+        simp only [dmsMag]; ring
+      rw [e3, abs_div, abs_of_pos (by norm_num : (0 : ℚ) < 3600)]
+      rw [mul_one_div]
+      exact div_le_div_of_nonneg_right hcl (by norm_num)
+    by_cases hp : s.positive
+    · refine ⟨.dmsA ⟨true, s.degree, s.minute, rnd n s.second⟩, _, ?_, rfl, hr, rfl, ?_⟩
+      · show Except.ok (AngleObj.dmsA (if s.positive then _ else _)) = _
+        rw [if_pos hp, hmk]
+      · rw [← e, dms_dec, dms_dec, if_pos hp]; simpa [roundUnit, AngleObj.cls] using key
+    · obtain ⟨g1, g2⟩ := dms_neg ⟨true, s.degree, s.minute, rnd n s.second⟩ hr
+      refine ⟨.dmsA (DMS.neg ⟨true, s.degree, s.minute, rnd n s.second⟩), _, ?_, rfl, g2, rfl, ?_⟩
+      · show Except.ok (AngleObj.dmsA (if s.positive then _ else _)) = _
+        rw [if_neg hp, hmk]
+      · rw [← e, g1, dms_dec, dms_dec, if_neg hp]
+        simp only [if_true, roundUnit, AngleObj.cls]
+        have : -dmsMag ⟨true, s.degree, s.minute, rnd n s.second⟩ - -dmsMag s
+            = -(dmsMag ⟨true, s.degree, s.minute, rnd n s.second⟩ - dmsMag s) := by ring
+        rw [this, abs_neg]; exact key
+  | ddmA s =>
+    have e : s.dec = x := ok_inj ha
+    have hs : 0 ≤ s.minute := hw
+    obtain ⟨l1, l2, l3, l4⟩ := roundNum_arg n hs
+    have hr := rnd_nonneg n hs
+    have hcl := rnd_close n s.minute
+    have key : |ddmMag ⟨true, s.degree, rnd n s.minute⟩ - ddmMag s| ≤ 1 / 2 / 10 ^ (n.getD 0) * (1 / 60) := by
+      have e3 : ddmMag ⟨true, s.degree, rnd n s.minute⟩ - ddmMag s = (rnd n s.minute - s.minute) / 60 := by
+        simp only [ddmMag]; ring
+      rw [e3, abs_div, abs_of_pos (by norm_num : (0 : ℚ) < 60), mul_one_div]
+      exact div_le_div_of_nonneg_right hcl (by norm_num)
+    by_cases hp : s.positive
+    · have hmk := mkDDM_posN s.degree (AngleObj.roundNum n s.minute) l1
+      rw [l2] at hmk
+      refine ⟨.ddmA ⟨true, s.degree, rnd n s.minute⟩, _, ?_, rfl, hr, rfl, ?_⟩
+      · show (if s.positive then _ else _) = _
+        rw [if_pos hp, hmk]
+      · rw [← e, ddm_dec, ddm_dec, if_pos hp]; simpa [roundUnit, AngleObj.cls] using key
+    · have hmk := mkDDM_negN s.degree (AngleObj.roundNum n s.minute).neg (rnd n s.minute) l3 l4 hr
+      refine ⟨.ddmA ⟨decide (s.degree = 0 ∧ rnd n s.minute = 0), s.degree, rnd n s.minute⟩, _, ?_, rfl, hr, rfl, ?_⟩
+      · show (if s.positive then _ else _) = _
+        rw [if_neg hp, hmk]
+      · rw [← e, ddm_dec, ddm_dec, if_neg hp]
+        simp only [roundUnit, AngleObj.cls]
+        have hm : ddmMag ⟨decide (s.degree = 0 ∧ rnd n s.minute = 0), s.degree, rnd n s.minute⟩
+            = ddmMag ⟨true, s.degree, rnd n s.minute⟩ := rfl
+        by_cases hz : s.degree = 0 ∧ rnd n s.minute = 0
+        · have h0 : ddmMag ⟨true, s.degree, rnd n s.minute⟩ = 0 := ddmMag_eq_zero _ ⟨hz.1, hz.2⟩
+          have e4 : (if (decide (s.degree = 0 ∧ rnd n s.minute = 0)) = true then ddmMag ⟨decide (s.degree = 0 ∧ rnd n s.minute = 0), s.degree, rnd n s.minute⟩
+              else -ddmMag ⟨decide (s.degree = 0 ∧ rnd n s.minute = 0), s.degree, rnd n s.minute⟩) = -ddmMag ⟨true, s.degree, rnd n s.minute⟩ := by
+            rw [hm, h0]; simp
+          rw [e4]
+          have : -ddmMag ⟨true, s.degree, rnd n s.minute⟩ - -ddmMag s
+              = -(ddmMag ⟨true, s.degree, rnd n s.minute⟩ - ddmMag s) := by ring
+          rw [this, abs_neg]; exact key
+        · have e4 : (if (decide (s.degree = 0 ∧ rnd n s.minute = 0)) = true then ddmMag ⟨decide (s.degree = 0 ∧ rnd n s.minute = 0), s.degree, rnd n s.minute⟩
+              else -ddmMag ⟨decide (s.degree = 0 ∧ rnd n s.minute = 0), s.degree, rnd n s.minute⟩) = -ddmMag ⟨true, s.degree, rnd n s.minute⟩ := by
+            rw [hm]; simp [hz]
+          rw [e4]
+          have : -ddmMag ⟨true, s.degree, rnd n s.minute⟩ - -ddmMag s
+              = -(ddmMag ⟨true, s.degree, rnd n s.minute⟩ - ddmMag s) := by ring
+          rw [this, abs_neg]; exact key
+
+/-! ### 5. modulo (DMS, DDM) is Python's float modulo of the decimal-degree value -/
+
+/-- Python `x % k` in exact arithmetic: `x − k·⌊x/k⌋` (sign of the divisor) -/
+def pymod (x k : ℚ) : ℚ := x - k * (⌊x / k⌋ : ℚ)
+
+/-- **mod_dec**: `a % k` for DMS and DDM is the object of the same class denoting `a.dec % k`
+exactly; `k = 0` raises `ZeroDivisionError`; HP and GON have no `%` (`TypeError`), and `%` on a
+DECAngle is `float.__mod__` and returns a plain number. -/
+theorem mod_dec (a : AngleObj ℚ) (k x : ℚ) (ha : a.dec = .ok x) :
+    (a.cls = .DMS ∨ a.cls = .DDM →
+      (k = 0 → a.mod k = .error .ZeroDivisionError) ∧
+      (k ≠ 0 → ∃ r, a.mod k = .ok (.obj r) ∧ r.cls = a.cls ∧ WF r ∧ r.dec = .ok (pymod x k))) ∧
+    (a.cls = .HP ∨ a.cls = .GON → a.mod k = .error .TypeError) ∧
+    (a.cls = .DEC → k ≠ 0 → a.mod k = .ok (.num (pymod x k))) := by
+  cases a with
+  | decA v =>
+    have e : v = x := ok_inj ha
+    subst e
+    refine ⟨fun h => by simp [AngleObj.cls] at h, fun h => by simp [AngleObj.cls] at h, fun _ hk => ?_⟩
+    show (if AngArith.eqb k (AngArith.ofNat 0) = true then _ else _) = _
+    simp only [q_eqb, q_ofNat, Nat.cast_zero, hk, decide_false, Bool.false_eq_true, if_false, q_pmod, pymod]
+  | hpA v =>
+    exact ⟨fun h => by simp [AngleObj.cls] at h, fun _ => rfl, fun h => by simp [AngleObj.cls] at h⟩
+  | gonA v =>
+    exact ⟨fun h => by simp [AngleObj.cls] at h, fun _ => rfl, fun h => by simp [AngleObj.cls] at h⟩
+  | dmsA s =>
+    have e : s.dec = x := ok_inj ha
+    refine ⟨fun _ => ⟨fun hk => ?_, fun hk => ?_⟩, fun h => by simp [AngleObj.cls] at h,
+      fun h => by simp [AngleObj.cls] at h⟩
+    · show (if AngArith.eqb k (AngArith.ofNat 0) = true then _ else _) = _
+      simp [hk]
+    · refine ⟨.dmsA (dec2dms (pymod x k)), ?_, rfl, (dec2dms_dec _).2, by rw [dec_dmsA, (dec2dms_dec _).1]⟩
+      show (if AngArith.eqb k (AngArith.ofNat 0) = true then _ else _) = _
+      simp only [q_eqb, q_ofNat, Nat.cast_zero, hk, decide_false, Bool.false_eq_true, if_false, q_pmod, pymod, e]
+  | ddmA s =>
+    have e : s.dec = x := ok_inj ha
+    refine ⟨fun _ => ⟨fun hk => ?_, fun hk => ?_⟩, fun h => by simp [AngleObj.cls] at h,
+      fun h => by simp [AngleObj.cls] at h⟩
+    · show (if AngArith.eqb k (AngArith.ofNat 0) = true then _ else _) = _
+      simp [hk]
+    · refine ⟨.ddmA (dec2ddm (pymod x k)), ?_, rfl, (dec2ddm_dec _).2, by rw [dec_ddmA, (dec2ddm_dec _).1]⟩
+      show (if AngArith.eqb k (AngArith.ofNat 0) = true then _ else _) = _
+      simp only [q_eqb, q_ofNat, Nat.cast_zero, hk, decide_false, Bool.false_eq_true, if_false, q_pmod, pymod, e]
+
+/-- for a positive modulus the result lies in `[0, k)` -/
+theorem pymod_range (x k : ℚ) (hk : 0 < k) : 0 ≤ pymod x k ∧ pymod x k < k := by
+  unfold pymod
+  have h1 := Int.floor_le (x / k)
+  have h2 := Int.lt_floor_add_one (x / k)
+  rw [le_div_iff₀ hk] at h1
+  rw [div_lt_iff₀ hk] at h2
+  constructor <;> nlinarith
+
+/-! ### 6. expression trees: any program over the operators evaluates to the same angle
+whichever notations its operands are held in -/
+
+/-- the class an expression evaluates to: the class of its leftmost leaf -/
+def leftCls : Expr ℚ → Cls
+  | .leaf o => o.cls
+  | .add a _ => leftCls a
+  | .sub a _ => leftCls a
+  | .neg a => leftCls a
+  | .abs a => leftCls a
+  | .mulK a _ => leftCls a
+  | .rmulK _ a => leftCls a
+  | .divK a _ => leftCls a
+  | .modK a _ => leftCls a
+  | .round _ a => leftCls a
+
+/-- the same program on decimal degrees (plain numbers) -/
+def ref : Expr ℚ → ℚ
+  | .leaf o => (odec o).getD 0
+  | .add a b => ref a + ref b
+  | .sub a b => ref a - ref b
+  | .neg a => -ref a
+  | .abs a => |ref a|
+  | .mulK a k => ref a * k
+  | .rmulK k a => k * ref a
+  | .divK a k => ref a / k
+  | .modK a k => pymod (ref a) k
+  | .round _ a => ref a
+
+/-- representation error of a result of class `c` when one HP rounding costs `ε` -/
+def T (ε : ℚ) (c : Cls) : ℚ := if c = .HP then ε else 0
+
+/-- accumulated bound: every HP-class node adds one rounding; scalings scale what is below them -/
+def errB (ε : ℚ) : Expr ℚ → ℚ
+  | .leaf _ => 0
+  | .add a b => errB ε a + errB ε b + T ε (leftCls a)
+  | .sub a b => errB ε a + errB ε b + T ε (leftCls a)
+  | .neg a => errB ε a
+  | .abs a => errB ε a
+  | .mulK a k => |k| * errB ε a + T ε (leftCls a)
+  | .rmulK k a => |k| * errB ε a + T ε (leftCls a)
+  | .divK a k => errB ε a / |k| + T ε (leftCls a)
+  | .modK a _ => errB ε a
+  | .round _ a => errB ε a
+
+/-- admissible programs: leaves are well-formed objects, no division by zero, `%` only on a
+DMS/DDM-class operand that is exact (it is discontinuous), no `round` nodes (rounding is
+class-specific, see `round_half_unit`); `C` is the side condition under which one HP rounding
+costs at most `ε` and has to hold for every value within the accumulated bound of the exact one. -/
+def Adm (ε : ℚ) (C : ℚ → Prop) : Expr ℚ → Prop
+  | .leaf o => WF o ∧ ∃ x, o.dec = .ok x
+  | .add a b => Adm ε C a ∧ Adm ε C b ∧ ∀ v, |v - (ref a + ref b)| ≤ errB ε a + errB ε b → C v
+  | .sub a b => Adm ε C a ∧ Adm ε C b ∧ ∀ v, |v - (ref a - ref b)| ≤ errB ε a + errB ε b → C v
+  | .neg a => Adm ε C a
+  | .abs a => Adm ε C a
+  | .mulK a k => Adm ε C a ∧ ∀ v, |v - ref a * k| ≤ |k| * errB ε a → C v
+  | .rmulK k a => Adm ε C a ∧ ∀ v, |v - k * ref a| ≤ |k| * errB ε a → C v
+  | .divK a k => k ≠ 0 ∧ Adm ε C a ∧ ∀ v, |v - ref a / k| ≤ errB ε a / |k| → C v
+  | .modK a k => k ≠ 0 ∧ (leftCls a = .DMS ∨ leftCls a = .DDM) ∧ errB ε a = 0 ∧ Adm ε C a
+  | .round _ _ => False
+
+theorem T_nonneg {ε : ℚ} (h : 0 ≤ ε) (c : Cls) : 0 ≤ T ε c := by unfold T; split <;> simp [h]
+
+theorem clsTol_le_T {ε : ℚ} {C : ℚ → Prop} (hC : ∀ v, C v → hpTol v ≤ ε) (c : Cls) (v : ℚ)
+    (hv : C v) : clsTol c v ≤ T ε c := by
+  unfold clsTol T; split
+  · exact hC v hv
+  · exact le_refl 0
+
+theorem errB_nonneg {ε : ℚ} (h : 0 ≤ ε) (e : Expr ℚ) : 0 ≤ errB ε e := by
+  induction e with
+  | leaf o => simp [errB]
+  | add a b iha ihb => simp only [errB]; have := T_nonneg h (leftCls a); linarith
+  | sub a b iha ihb => simp only [errB]; have := T_nonneg h (leftCls a); linarith
+  | neg a ih => simpa [errB] using ih
+  | abs a ih => simpa [errB] using ih
+  | mulK a k ih => simp only [errB]; have := T_nonneg h (leftCls a); have := abs_nonneg k; nlinarith
+  | rmulK k a ih => simp only [errB]; have := T_nonneg h (leftCls a); have := abs_nonneg k; nlinarith
+  | divK a k ih => simp only [errB]; have := T_nonneg h (leftCls a)
+                   have : 0 ≤ errB ε a / |k| := div_nonneg ih (abs_nonneg k); linarith
+  | modK a k ih => simpa [errB] using ih
+  | round n a ih => simpa [errB] using ih
+
+theorem odec_ok {o : AngleObj ℚ} {x : ℚ} (h : o.dec = .ok x) : (odec o).getD 0 = x := by
+  unfold odec; rw [h]; rfl
+
+theorem eval_bind_ok {e : Expr ℚ} {o : AngleObj ℚ} (h : eval e = .ok (.obj o)) (f : Val ℚ → Except PyErr (Val ℚ)) :
+    (eval e).bind f = f (.obj o) := by rw [h]; rfl
+
+/-- **eval_sound** (generic form): if one HP rounding costs at most `ε` under the side condition
+`C`, every admissible program evaluates — for ANY assignment of the five classes to its leaves — to
+a well-formed object of the class of its leftmost leaf that denotes the decimal-degree value of
+the same program within the accumulated bound `errB ε`. Induction over the tree. -/
+theorem eval_sound_gen (ε : ℚ) (C : ℚ → Prop) (hC : ∀ v, C v → hpTol v ≤ ε)
+    (e : Expr ℚ) (h : Adm ε C e) :
+    ∃ o z, eval e = .ok (.obj o) ∧ o.cls = leftCls e ∧ WF o ∧ o.dec = .ok z ∧ |z - ref e| ≤ errB ε e := by
+  induction e with
+  | leaf o =>
+    obtain ⟨hw, x, hx⟩ := h
+    exact ⟨o, x, rfl, rfl, hw, hx, by simp [ref, errB, odec_ok hx]⟩
+  | add a b iha ihb =>
+    obtain ⟨h1, h2, h3⟩ := h
+    obtain ⟨oa, za, ea, ca, wa, da, ba⟩ := iha h1
+    obtain ⟨ob, zb, eb, cb, wb, db, bb⟩ := ihb h2
+    obtain ⟨r, z, r1, r2, r3, r4, r5⟩ := add_dec oa ob za zb da db
+    have hv : C (za + zb) := h3 _ (by
+      have : za + zb - (ref a + ref b) = (za - ref a) + (zb - ref b) := by ring
+      rw [this]; exact le_trans (abs_add_le _ _) (by linarith))
+    have ht := clsTol_le_T hC oa.cls (za + zb) hv
+    refine ⟨r, z, ?_, by rw [r2, ca]; rfl, r3, r4, ?_⟩
+    · show (eval a).bind (fun x => (eval b).bind (fun y => binop .add x y)) = _
+      rw [ea, bind_ok, eb, bind_ok]
+      show (oa.add ob).map Val.obj = _
+      rw [r1]; rfl
+    · simp only [ref, errB]
+      have e1 : z - (ref a + ref b) = (z - (za + zb)) + ((za - ref a) + (zb - ref b)) := by ring
+      rw [e1]
+      have := abs_add_le (z - (za + zb)) ((za - ref a) + (zb - ref b))
+      have := abs_add_le (za - ref a) (zb - ref b)
+      rw [ca] at ht r5
+      linarith
+  | sub a b iha ihb =>
+    obtain ⟨h1, h2, h3⟩ := h
+    obtain ⟨oa, za, ea, ca, wa, da, ba⟩ := iha h1
+    obtain ⟨ob, zb, eb, cb, wb, db, bb⟩ := ihb h2
+    obtain ⟨r, z, r1, r2, r3, r4, r5⟩ := sub_dec oa ob za zb da db
+    have hab : |za - zb - (ref a - ref b)| ≤ errB ε a + errB ε b := by
+      have : za - zb - (ref a - ref b) = (za - ref a) + -(zb - ref b) := by ring
+      rw [this]
+      have := abs_add_le (za - ref a) (-(zb - ref b))
+      rw [abs_neg] at this
+      linarith
+    have hv : C (za - zb) := h3 _ hab
+    have ht := clsTol_le_T hC oa.cls (za - zb) hv
+    refine ⟨r, z, ?_, by rw [r2, ca]; rfl, r3, r4, ?_⟩
+    · show (eval a).bind (fun x => (eval b).bind (fun y => binop .sub x y)) = _
+      rw [ea, bind_ok, eb, bind_ok]
+      show (oa.sub ob).map Val.obj = _
+      rw [r1]; rfl
+    · simp only [ref, errB]
+      have e1 : z - (ref a - ref b) = (z - (za - zb)) + (za - zb - (ref a - ref b)) := by ring
+      rw [e1]
+      have := abs_add_le (z - (za - zb)) (za - zb - (ref a - ref b))
+      rw [ca] at ht r5
+      linarith
+  | neg a ih =>
+    obtain ⟨oa, za, ea, ca, wa, da, ba⟩ := ih h
+    obtain ⟨r, r1, r2, r3, r4⟩ := neg_dec oa za wa da
+    refine ⟨r, -za, ?_, by rw [r2, ca]; rfl, r3, r4, ?_⟩
+    · show (eval a).bind unNeg = _
+      rw [ea, bind_ok]
+      show oa.neg.map Val.obj = _
+      rw [r1]; rfl
+    · simp only [ref, errB]
+      have : -za - -ref a = -(za - ref a) := by ring
+      rw [this, abs_neg]; exact ba
+  | abs a ih =>
+    obtain ⟨oa, za, ea, ca, wa, da, ba⟩ := ih h
+    obtain ⟨r, r1, r2, r3, r4⟩ := abs_dec oa za wa da
+    refine ⟨r, |za|, ?_, by rw [r2, ca]; rfl, r3, r4, ?_⟩
+    · show (eval a).bind unAbs = _
+      rw [ea, bind_ok]
+      show oa.abs.map Val.obj = _
+      rw [r1]; rfl
+    · simp only [ref, errB]
+      exact le_trans (abs_abs_sub_abs_le_abs_sub za (ref a)) ba
+  | mulK a k ih =>
+    obtain ⟨h1, h3⟩ := h
+    obtain ⟨oa, za, ea, ca, wa, da, ba⟩ := ih h1
+    obtain ⟨r, z, r1, r2, r3, r4, r5⟩ := mul_dec oa za k da
+    have hab : |za * k - ref a * k| ≤ |k| * errB ε a := by
+      have : za * k - ref a * k = k * (za - ref a) := by ring
+      rw [this, abs_mul]
+      exact mul_le_mul_of_nonneg_left ba (abs_nonneg k)
+    have ht := clsTol_le_T hC oa.cls (za * k) (h3 _ hab)
+    refine ⟨r, z, ?_, by rw [r2, ca]; rfl, r3, r4, ?_⟩
+    · show (eval a).bind (fun x => binop .mul x (.num k)) = _
+      rw [ea, bind_ok]
+      show (oa.mul k).map Val.obj = _
+      rw [r1]; rfl
+    · simp only [ref, errB]
+      have e1 : z - ref a * k = (z - za * k) + (za * k - ref a * k) := by ring
+      rw [e1]
+      have := abs_add_le (z - za * k) (za * k - ref a * k)
+      rw [ca] at ht r5
+      linarith
+  | rmulK k a ih =>
+    obtain ⟨h1, h3⟩ := h
+    obtain ⟨oa, za, ea, ca, wa, da, ba⟩ := ih h1
+    obtain ⟨r, z, r1, r2, r3, r4, r5⟩ := rmul_dec oa za k da
+    have hab : |k * za - k * ref a| ≤ |k| * errB ε a := by
+      have : k * za - k * ref a = k * (za - ref a) := by ring
+      rw [this, abs_mul]
+      exact mul_le_mul_of_nonneg_left ba (abs_nonneg k)
+    have ht := clsTol_le_T hC oa.cls (k * za) (h3 _ hab)
+    refine ⟨r, z, ?_, by rw [r2, ca]; rfl, r3, r4, ?_⟩
+    · show (eval a).bind (fun x => binop .mul (.num k) x) = _
+      rw [ea, bind_ok]
+      show (oa.rmul k).map Val.obj = _
+      rw [r1]; rfl
+    · simp only [ref, errB]
+      have e1 : z - k * ref a = (z - k * za) + (k * za - k * ref a) := by ring
+      rw [e1]
+      have := abs_add_le (z - k * za) (k * za - k * ref a)
+      rw [ca] at ht r5
+      linarith
+  | divK a k ih =>
+    obtain ⟨hk, h1, h3⟩ := h
+    obtain ⟨oa, za, ea, ca, wa, da, ba⟩ := ih h1
+    obtain ⟨r, z, r1, r2, r3, r4, r5⟩ := (truediv_dec oa za k da).2 hk
+    have hk' : 0 < |k| := abs_pos.mpr hk
+    have hab : |za / k - ref a / k| ≤ errB ε a / |k| := by
+      have : za / k - ref a / k = (za - ref a) / k := by ring
+      rw [this, abs_div]
+      exact div_le_div_of_nonneg_right ba (le_of_lt hk')
+    have ht := clsTol_le_T hC oa.cls (za / k) (h3 _ hab)
+    refine ⟨r, z, ?_, by rw [r2, ca]; rfl, r3, r4, ?_⟩
+    · show (eval a).bind (fun x => binop .div x (.num k)) = _
+      rw [ea, bind_ok]
+      show (oa.truediv k).map Val.obj = _
+      rw [r1]; rfl
+    · simp only [ref, errB]
+      have e1 : z - ref a / k = (z - za / k) + (za / k - ref a / k) := by ring
+      rw [e1]
+      have := abs_add_le (z - za / k) (za / k - ref a / k)
+      rw [ca] at ht r5
+      linarith
+  | modK a k ih =>
+    obtain ⟨hk, hcls, h0, h1⟩ := h
+    obtain ⟨oa, za, ea, ca, wa, da, ba⟩ := ih h1
+    rw [h0] at ba
+    have hz : za = ref a := by
+      have := abs_nonpos_iff.mp ba; linarith
+    obtain ⟨r, r1, r2, r3, r4⟩ := ((mod_dec oa k za da).1 (by rw [ca]; exact hcls)).2 hk
+    refine ⟨r, pymod za k, ?_, by rw [r2, ca]; rfl, r3, r4, ?_⟩
+    · show (eval a).bind (fun x => binop .mod x (.num k)) = _
+      rw [ea, bind_ok]
+      exact r1
+    · simp only [ref, errB, hz, h0]; simp
+  | round n a ih => exact absurd h (by simp [Adm])
+
+/-- **eval_sound**: every admissible expression tree (any depth, any assignment of the five
+classes to its leaves) evaluates to the angle its decimal-degree reading gives, within the
+accumulated HP roundings of `0.5·10⁻⁸″` each (the resolution valid at every magnitude). -/
+theorem eval_sound (e : Expr ℚ) (h : Adm eps8 (fun _ => True) e) :
+    ∃ o z, eval e = .ok (.obj o) ∧ o.cls = leftCls e ∧ WF o ∧ o.dec = .ok z ∧ |z - ref e| ≤ errB eps8 e :=
+  eval_sound_gen eps8 (fun _ => True) (fun v _ => hpTol_le_eps8 v) e h
+
+/-- **eval_sound**, the `1e-9″` form: when every intermediate value stays below 512° (checked on
+the exact values plus the accumulated bound), each HP rounding costs `0.5·10⁻⁹″`. -/
+theorem eval_sound_lt512 (e : Expr ℚ) (h : Adm eps9 (fun v => |v| < 512) e) :
+    ∃ o z, eval e = .ok (.obj o) ∧ o.cls = leftCls e ∧ WF o ∧ o.dec = .ok z ∧ |z - ref e| ≤ errB eps9 e :=
+  eval_sound_gen eps9 (fun v => |v| < 512) (fun _ hv => le_of_eq (hpTol_eq_eps9 hv)) e h
+
+/-- how the magnitude side condition of `eval_sound_lt512` is discharged -/
+theorem guard_of_bound {r err v : ℚ} (h : |r| + err < 512) (hv : |v - r| ≤ err) : |v| < 512 := by
+  have := abs_sub_abs_le_abs_sub v r
+  linarith
+
+/-- number of operator nodes -/
+def nodes : Expr ℚ → ℕ
+  | .leaf _ => 0
+  | .add a b => nodes a + nodes b + 1
+  | .sub a b => nodes a + nodes b + 1
+  | .neg a => nodes a + 1
+  | .abs a => nodes a + 1
+  | .mulK a _ => nodes a + 1
+  | .rmulK _ a => nodes a + 1
+  | .divK a _ => nodes a + 1
+  | .modK a _ => nodes a + 1
+  | .round _ a => nodes a + 1
+
+/-- no amplifying scalings: multipliers of magnitude ≤ 1, divisors of magnitude ≥ 1 -/
+def NoAmp : Expr ℚ → Prop
+  | .leaf _ => True
+  | .add a b => NoAmp a ∧ NoAmp b
+  | .sub a b => NoAmp a ∧ NoAmp b
+  | .neg a => NoAmp a
+  | .abs a => NoAmp a
+  | .mulK a k => NoAmp a ∧ |k| ≤ 1
+  | .rmulK k a => NoAmp a ∧ |k| ≤ 1
+  | .divK a k => NoAmp a ∧ 1 ≤ |k|
+  | .modK a _ => NoAmp a
+  | .round _ a => NoAmp a
+
+theorem T_le {ε : ℚ} (h : 0 ≤ ε) (c : Cls) : T ε c ≤ ε := by unfold T; split <;> simp [h]
+
+/-- without amplifying scalings the accumulated bound is at most one rounding per operator node:
+`(#nodes) · ε` -/
+theorem errB_le_nodes {ε : ℚ} (hε : 0 ≤ ε) (e : Expr ℚ) (h : NoAmp e) : errB ε e ≤ (nodes e : ℚ) * ε := by
+  induction e with
+  | leaf o => simp [errB, nodes]
+  | add a b iha ihb =>
+    have := T_le hε (leftCls a); have := iha h.1; have := ihb h.2
+    simp only [errB, nodes]; push_cast; linarith
+  | sub a b iha ihb =>
+    have := T_le hε (leftCls a); have := iha h.1; have := ihb h.2
+    simp only [errB, nodes]; push_cast; linarith
+  | neg a ih => have := ih h; simp only [errB, nodes]; push_cast; linarith
+  | abs a ih => have := ih h; simp only [errB, nodes]; push_cast; linarith
+  | mulK a k ih =>
+    have := T_le hε (leftCls a); have := ih h.1; have h0 := errB_nonneg hε a
+    have : |k| * errB ε a ≤ errB ε a := by have := h.2; nlinarith
+    simp only [errB, nodes]; push_cast; linarith
+  | rmulK k a ih =>
+    have := T_le hε (leftCls a); have := ih h.1; have h0 := errB_nonneg hε a
+    have : |k| * errB ε a ≤ errB ε a := by have := h.2; nlinarith
+    simp only [errB, nodes]; push_cast; linarith
+  | divK a k ih =>
+    have := T_le hε (leftCls a); have := ih h.1; have h0 := errB_nonneg hε a
+    have : errB ε a / |k| ≤ errB ε a := div_le_self h0 h.2
+    simp only [errB, nodes]; push_cast; linarith
+  | modK a k ih => have := ih h; simp only [errB, nodes]; push_cast; linarith
+  | round n a ih => have := ih h; simp only [errB, nodes]; push_cast; linarith
+
+/-- comparisons of two evaluated expressions are comparisons of what they denote -/
+theorem evalCmp_sound (op : CmpOp) (a b : Expr ℚ) (oa ob : AngleObj ℚ) (x y : ℚ)
+    (ea : eval a = .ok (.obj oa)) (eb : eval b = .ok (.obj ob)) (ha : oa.dec = .ok x) (hb : ob.dec = .ok y) :
+    evalCmp op a b = .ok (match op with
+      | .eq => decide (x = y) | .ne => decide (x ≠ y) | .lt => decide (x < y) | .gt => decide (x > y)) := by
+  obtain ⟨c1, c2, c3, c4⟩ := cmp_dec oa ob x y ha hb
+  show (eval a).bind (fun x => (eval b).bind (fun y => cmpop op x y)) = _
+  rw [ea, bind_ok, eb, bind_ok]
+  cases op
+  · exact c1
+  · exact c2
+  · exact c3
+  · exact c4
+
+/-- the hypotheses are satisfiable: `DMS(12°34′56″) + DEC(0.3°) * 2` -/
+example : Adm eps8 (fun _ => True)
+    (.add (.leaf (.dmsA ⟨true, 12, 34, 56⟩)) (.mulK (.leaf (.decA (3 / 10))) 2)) := by
+  refine ⟨⟨?_, _, rfl⟩, ⟨⟨trivial, _, rfl⟩, fun _ _ => trivial⟩, fun _ _ => trivial⟩
+  show (0 : ℚ) ≤ 56
+  norm_num
 
 end GeodeVerif.C12
